@@ -914,6 +914,27 @@ var ruleLocFile = &Rule{
 				}
 			}
 			if !builds {
+				// a private predicate extracted from such builders (all its call sites are in functions that build results)
+				sites, closed := closedCallSites(c, f)
+				if closed && len(sites) > 0 {
+					all := true
+					for _, cs := range sites {
+						cb := false
+						for _, b2 := range cs.Parent().Blocks {
+							for _, ins2 := range b2.Instrs {
+								if st, ok := ins2.(*ssa.Store); ok {
+									if fa, ok := st.Addr.(*ssa.FieldAddr); ok && namedName(fa.X.Type()) == "DefineStruct" && fieldOf(fa).Name() == "StrFile" {
+										cb = true
+									}
+								}
+							}
+						}
+						all = all && cb
+					}
+					builds = all
+				}
+			}
+			if !builds {
 				continue
 			}
 			cnt := 0
@@ -937,14 +958,18 @@ var ruleLocFile = &Rule{
 							continue
 						}
 						bo, ok := iff.Cond.(*ssa.BinOp)
-						if !ok || bo.Op != token.EQL {
+						if !ok || (bo.Op != token.EQL && bo.Op != token.NEQ) {
 							continue
 						}
 						bt, ok := bo.X.Type().Underlying().(*types.Basic)
 						if !ok || bt.Kind() != types.String {
 							continue
 						}
-						if id.Succs[0] == d || id.Succs[0].Dominates(b) {
+						eq := 0 // the successor on which the two strings are equal
+						if bo.Op == token.NEQ {
+							eq = 1
+						}
+						if (id.Succs[eq] == d || id.Succs[eq].Dominates(b)) && id.Succs[1-eq] != id.Succs[eq] {
 							guarded = true
 						}
 					}
